@@ -62,6 +62,29 @@ def fmPieces (fm : FM) (y0 x0 c0 : Nat) : List Piece :=
   coalesce ((List.range fm.height).flatMap fun y =>
     runPieces fm y0 x0 c0 y 0 (min fm.width fm.width0) ++ runPieces fm y0 x0 c0 y fm.width0 fm.width)
 
+/-! ## Per-tile tag shifts
+
+An operation may displace the base address of each of the four tiles by its own byte offset
+(Vela: `tile_base_offsets_ifm/ofm`, used to replicate edge rows/columns). The logical element read
+through tile `t` is then displaced by `shifts[t]` bytes, so a piece lying in tile `t` carries
+`delta + shifts[t]`. Pieces never span tiles (one run per row and per side of `width0`). -/
+
+/-- index of the tile element `(y, x)` lies in — exactly the selection `fmAddr` makes -/
+def tileOf (fm : FM) (y x : Nat) : Nat :=
+  let inB := x ≥ fm.width0
+  let hSplit := if inB then fm.height1 else fm.height0
+  (if inB then 1 else 0) + (if y ≥ hSplit then 2 else 0)
+
+def tileShift (shifts : List Int) (t : Nat) : Int := shifts.getD t 0
+
+def shiftPieces (s : Int) (ps : List Piece) : List Piece := ps.map fun p => { p with delta := p.delta + s }
+
+/-- `fmPieces` with the tag of every piece shifted by the offset of the tile it lies in -/
+def fmPiecesS (fm : FM) (y0 x0 c0 : Nat) (shifts : List Int) : List Piece :=
+  coalesce ((List.range fm.height).flatMap fun y =>
+    shiftPieces (tileShift shifts (tileOf fm y 0)) (runPieces fm y0 x0 c0 y 0 (min fm.width fm.width0)) ++
+    shiftPieces (tileShift shifts (tileOf fm y fm.width0)) (runPieces fm y0 x0 c0 y fm.width0 fm.width))
+
 /-- smallest and one-past-largest address touched -/
 def hull (ps : List Piece) : Option (Nat × Nat) :=
   match ps with
